@@ -79,7 +79,7 @@ def r04_2(run):
                f"{ca}" if ok else f"in-place spelling uses {ca}, out-of-place uses {cb}")
         for s in a:
             ops_ = [norm(x) for x in s.tensors]
-            ok = ops_[0] == "self" and norm(s.call.func.value) == "self"
+            ok = bool(ops_) and ops_[0] == "self" and norm(s.call.func.value) == "self"
             run.ob("R04.2", loc(s.fi, s.call), s.fi.short, f"{ip}: target of the in-place op is self and self is the first operand", ok,
                    f"self._in_place_op({s.op_cls.name if s.op_cls else '?'}, {', '.join(ops_)})" if ok else "in-place op writes into a different tensor")
         if m is not None:
